@@ -974,6 +974,21 @@ def run(ctx):
                 except Undefined:
                     pass
 
+        # ---- control: source positions do not reach the module -------------------------------------------------
+        if normal:
+            d = sc.sub("poscontrol")
+            base = program(normal[:BATCH], "infix")
+            moved = "\n\n\n" + "\n".join(("      " + l if l.startswith("    ") else "\n" + l) for l in base.split("\n"))
+            mods = []
+            for name, text in (("a", base), ("b", moved)):
+                with open(os.path.join(d, name + ".nano"), "w") as f:
+                    f.write(text)
+                r = sh([plain.nano_virt, name + ".nano", "--emit-nvm", "-o", name + ".nvm"], cwd=d, cpu=20)
+                ctx.require(r.rc == 0 and os.path.exists(os.path.join(d, name + ".nvm")), "position control did not compile")
+                with open(os.path.join(d, name + ".nvm"), "rb") as f:
+                    mods.append(f.read())
+            ctx.require(mods[0] == mods[1], "moving the source text (lines, columns) changes the module: byte equality is not the right relation")
+
         # ---- run -------------------------------------------------------------------------------------------
         batches = [("n", normal[i:i + BATCH]) for i in range(0, len(normal), BATCH)]
         for cs, lst in sorted(pattern.items(), key=lambda kv: sorted(kv[0])):
